@@ -11,7 +11,7 @@ import random
 CLS_WORDS = ['Train', 'TrainData', 'TrainX', 'Data', 'DataX', 'Model', 'Eval', 'Feat', 'FeatTask', 'Raw', 'RawX', 'Split',
              'Norm', 'N', 'NX', 'Agg', 'AggTask', 'Report', 'Rep', 'Load', 'LoadAll', 'A', 'AB', 'Ab']
 GROUPS = [None, None, 'g', 'xg', 'g:h', 'h', 'gx']
-NS_WORDS = ['n', 'xn', 'nx', 'm', 'train', 'tr', 'valid', 'a', 'ab']
+NS_WORDS = ['n', 'xn', 'nx', 'm', 'xm', 'train', 'tr', 'xtr', 'valid', 'a', 'xa', 'ab']
 PARAM_NAMES = ['p', 'q', 'size', 'dim', 'dim2', 'lr', 'lr2', 'alpha', 'opt', 'flag', 'names', 'cfgmap']
 DATA_KINDS = ['json_dict', 'json_dict', 'json_list', 'str', 'int', 'numpy', 'pandas', 'generator', 'lazy', 'listnp', 'dir', 'continues', 'memory',
               'json_dict', 'numpy', 'dir', 'generator', 'empty_gen', 'empty_listnp', 'empty_dir']
@@ -45,6 +45,8 @@ def gen_value(rng, feat, depth=0, placeholders=None):
 
 
 def gen_objdef(rng, feat, placeholders=None):
+    if feat.get('set_objects') and rng.random() < 0.4:
+        return {'class': 'tc_verif.lab.runtime.LabObjSet', 'kwargs': {'tags': rng.sample(['alpha', 'beta', 'gamma', 'delta', 'eps', 'zeta', 'eta'], rng.randint(2, 6))}}
     if rng.random() < 0.7:
         kw = {'a': gen_value(rng, feat, 1, placeholders)}
         if rng.random() < 0.5:
